@@ -265,6 +265,14 @@ func c19CheckCall(out *sim.Outcome, cs *sim.CallState, ri *RunInfo) []Violation 
 	if hasLit && mustReject == "" {
 		ri.NonTrivial = true
 		n, err := strconv.Atoi(lit)
+		if t := strings.TrimSpace(lit); err != nil && t != lit {
+			// white space around the literal: trimming it first (and then judging the number) or refusing
+			// the literal are both faithful; the value on the wire, if any, must be the trimmed number
+			if tn, terr := strconv.Atoi(t); terr == nil && tn >= 1 && tn <= 65535 {
+				litDontCare, n, err = true, tn, nil
+				lit = strconv.Itoa(tn)
+			}
+		}
 		switch {
 		case lit == "":
 			litDontCare = true
@@ -302,7 +310,10 @@ func c19CheckCall(out *sim.Outcome, cs *sim.CallState, ri *RunInfo) []Violation 
 		ri.probe("rejected-or-failed")
 		// a representable request with a known protocol/method must not fail in a fault-free world,
 		// except for the don't-care spellings
-		if knownProto && knownMethod && !(c.Protocol == "tcp" && c.WantV6) && !litDontCare {
+		// (for ICMP nothing on the wire carries the port: refusing a port that no wire could carry is as
+		// faithful as ignoring it)
+		icmpPortOutOfRange := c.Protocol == "icmp" && (c.Port < 0 || c.Port > 65535)
+		if knownProto && knownMethod && !(c.Protocol == "tcp" && c.WantV6) && !litDontCare && !icmpPortOutOfRange {
 			detail := fmt.Sprint(cs.Err)
 			if c.Entry == "http_handler" {
 				detail = fmt.Sprintf("HTTP %d %s", cs.HTTPStatus, strings.TrimSpace(string(cs.HTTPBody)))
@@ -392,7 +403,7 @@ func expectedTarget(c *sim.Call, resolvedPort int) (netip.Addr, int) {
 	}
 	// a port inside the literal is a decimal number (leading zeros and a sign do not change its value)
 	if lit, has := literalPort(t); has {
-		if n, err := strconv.Atoi(lit); err == nil && n > 0 {
+		if n, err := strconv.Atoi(strings.TrimSpace(lit)); err == nil && n > 0 {
 			port = n
 		}
 		if strings.HasPrefix(t, "[") {
